@@ -257,6 +257,59 @@ def install(eng):
         nxt = eng.load(st, node, 8); prev = eng.load(st, P(node.obj, node.off + 8), 8)
         eng.store(st, prev, 8, nxt); eng.store(st, P(nxt.obj, nxt.off + 8), 8, prev)
 
+    # std::set / std::map (libstdc++.so's red-black tree primitives).  Balance and colours are unobservable through the container's
+    # interface, so insertion links the node where the header-only caller decided (no rotations); only the root is blackened, because
+    # _Rb_tree_decrement recognises the header as "red and parent->parent == self".  Node base: {color @0, parent @8, left @16, right @24}.
+    def rb_get(st, n, off): return eng.load(st, P(n.obj, n.off + off), 8)
+    def rb_set(st, n, off, v): eng.store(st, P(n.obj, n.off + off), 8, v)
+    def rb_null(p): return isinstance(p, P) and p.obj == 0
+    def rb_same(a_, b_): return isinstance(a_, P) and isinstance(b_, P) and a_.obj == b_.obj and a_.off == b_.off
+    @model('_ZSt29_Rb_tree_insert_and_rebalancebPSt18_Rb_tree_node_baseS0_RS_')
+    def m_rb_insert(st, a):
+        left = eng.concretize(st, a[0], 'insert_left') & 1; x, p, h = a[1], a[2], a[3]
+        rb_set(st, x, 8, p); rb_set(st, x, 16, NULL); rb_set(st, x, 24, NULL); eng.store(st, x, 4, 0)
+        if left:
+            rb_set(st, p, 16, x)
+            if rb_same(p, h): rb_set(st, h, 8, x); rb_set(st, h, 24, x)
+            elif rb_same(p, rb_get(st, h, 16)): rb_set(st, h, 16, x)
+        else:
+            rb_set(st, p, 24, x)
+            if rb_same(p, rb_get(st, h, 24)): rb_set(st, h, 24, x)
+        root = rb_get(st, h, 8)
+        eng.store(st, root, 4, 1)
+    def rb_increment(st, x):
+        r = rb_get(st, x, 24)
+        if not rb_null(r):
+            x = r
+            while True:
+                l = rb_get(st, x, 16)
+                if rb_null(l): return x
+                x = l
+        y = rb_get(st, x, 8)
+        while rb_same(x, rb_get(st, y, 24)):
+            x = y; y = rb_get(st, y, 8)
+        if not rb_same(rb_get(st, x, 24), y): x = y
+        return x
+    def rb_decrement(st, x):
+        col = eng.load(st, x, 4)
+        par = rb_get(st, x, 8)
+        if col == 0 and not rb_null(par) and rb_same(rb_get(st, par, 8), x): return rb_get(st, x, 24)
+        l = rb_get(st, x, 16)
+        if not rb_null(l):
+            y = l
+            while True:
+                r = rb_get(st, y, 24)
+                if rb_null(r): return y
+                y = r
+        y = par
+        while rb_same(x, rb_get(st, y, 16)):
+            x = y; y = rb_get(st, y, 8)
+        return y
+    @model('_ZSt18_Rb_tree_incrementPKSt18_Rb_tree_node_base', '_ZSt18_Rb_tree_incrementPSt18_Rb_tree_node_base')
+    def m_rb_inc(st, a): return rb_increment(st, a[0])
+    @model('_ZSt18_Rb_tree_decrementPKSt18_Rb_tree_node_base', '_ZSt18_Rb_tree_decrementPSt18_Rb_tree_node_base')
+    def m_rb_dec(st, a): return rb_decrement(st, a[0])
+
     # ------------------------------------------------------------ libm (IEEE semantics via z3 FP / python floats)
     def fm(base, bits=64):
         return lambda st, a: eng.fmath(st, base, bits, a)
